@@ -146,6 +146,14 @@ class Ctx:
         self.pc.append(term)
         self._push(term)
 
+    def add_axiom(self, term):
+        """Defining equations of a fresh variable introduced by a model (sqrt, Cholesky, ...).
+        A model must never make the path infeasible: that would prove everything vacuously."""
+        self.add(term)
+        r, _ = self.check()
+        if r == "unsat":
+            raise HarnessBug(f"model axiom made the path infeasible: {str(term)[:200]}")
+
     def decide(self, cond) -> bool:
         cond = z3.simplify(cond)
         if z3.is_true(cond):
@@ -877,7 +885,7 @@ def s_sqrt(x):
             raise ValueError("math domain error")
         c.fresh_n += 1
         r = z3.Real(f"_sqrt{c.fresh_n}")
-        c.add(z3.And(r >= 0, r * r == a))
+        c.add_axiom(z3.And(r >= 0, r * r == a))
         return SymReal(r)
     return math.sqrt(x)
 
